@@ -24,6 +24,8 @@ VERUS_UNITS = {
                     props=['C01', 'C06']),
     'U-JSN-V': dict(module='contracts.verus.json_transcode', min_verified=1, timeout=600,
                     props=['C03', 'C04']),
+    'U-LIB-V': dict(module='contracts.verus.lib_translate', min_verified=9, timeout=600,
+                    props=['C09', 'C03', 'C12']),
     'U-MAIN-V': dict(module='contracts.verus.cli_main', min_verified=11, timeout=600,
                      props=['C14', 'C03', 'C15', 'C13']),
     'U-CAP-V': dict(module='contracts.verus.input_capture', min_verified=18, timeout=600,
